@@ -7,6 +7,7 @@ import (
 	"os"
 	"strconv"
 	"strings"
+	"time"
 )
 
 // Property drivers over the M-META engine: C01 (read back exactly), C02 (versioning), C13 (immutability).
@@ -19,11 +20,11 @@ type metaProp struct {
 
 func init() {
 	register("C01", &metaProp{name: "C01", profile: "c01",
-		classes: map[string]bool{"read": true, "empty-get": true, "rb": true, "ls": true, "copy": true, "etag": true, "append": true}})
+		classes: map[string]bool{"read": true, "empty-get": true, "rb": true, "ls": true, "copy": true, "etag": true, "append": true, "wire": true}})
 	register("C02", &metaProp{name: "C02", profile: "c02",
-		classes: map[string]bool{"latest": true, "lsv": true, "read": true, "del": true, "vid": true}})
+		classes: map[string]bool{"latest": true, "lsv": true, "read": true, "del": true, "vid": true, "wire": true}})
 	register("C13", &metaProp{name: "C13", profile: "c13",
-		classes: map[string]bool{"immutable": true, "immutable-lm": true}})
+		classes: map[string]bool{"immutable": true, "immutable-lm": true, "wire": true}})
 }
 
 func (p *metaProp) Parallel() bool { return true }
@@ -470,12 +471,39 @@ func (p *metaProp) Run(in string, scratch string) Result {
 		stacks = []string{"gzip", "zstd", "gzip", "zstdsql", "gzip", "tinkzstd", "zstdtink", "gzip", "ocache"}
 	}
 	stack := stacks[crc32.ChecksumIEEE([]byte(in))%uint32(len(stacks))]
+	// the HTTP leg takes its cases by a second hash instead of a slot of the table above, so that the other
+	// cases (corpus included) keep the stack they always had: one case in five runs through the real handlers
+	// (histories with large bodies stay on the compressing stacks they are made for)
+	if crc32.ChecksumIEEE([]byte(in+"#http"))%5 == 0 && !metaHasBigBody(in) {
+		stack = "http"
+	}
 	m, err := metaNewRun(scratch, stack)
 	if err != nil {
 		return Result{Out: "SETUP-ERROR " + err.Error(), Oracle: "FAIL:setup " + err.Error()}
 	}
 	defer m.env.close()
+	if stack == "http" {
+		// Last-Modified has second granularity on the wire: in one http case out of four a wall-clock second
+		// passes once, after a hash-chosen op, so that versions written before and after it differ there
+		if h := crc32.ChecksumIEEE([]byte(in + "#sleep")); h%4 == 0 {
+			at := int(h/4) % (strings.Count(in, " ") + 1)
+			m.afterOp = func(i int) {
+				if i == at {
+					time.Sleep(1050 * time.Millisecond)
+				}
+			}
+		}
+	}
 	out := m.exec(in)
+	if m.env.http != nil {
+		m.curKey = ""
+		for _, f := range m.env.http.takeFaults() {
+			m.fail("wire", f)
+		}
+		for t := range m.env.http.notes {
+			m.tags[t] = true
+		}
+	}
 	tags := []string{"stack-" + stack}
 	for t := range m.tags {
 		tags = append(tags, t)
